@@ -42,7 +42,7 @@ def t (e phi : α) : α :=
 /-- Snyder (3-12): q = (1 − e²){sin φ/(1 − e² sin² φ) − [1/(2e)] ln[(1 − e sin φ)/(1 + e sin φ)]};
 for the sphere q = 2 sin φ -/
 def q (e phi : α) : α :=
-  if gt e 1.0e-7 then
+  if gt e 0.0000001 then
     (1 - e * e) * (sin phi / (1 - e * e * (sin phi * sin phi)) - (1 / (2 * e)) * log ((1 - e * sin phi) / (1 + e * sin phi)))
   else 2 * sin phi
 
@@ -68,7 +68,7 @@ def mercK0 (e latts : α) : α := m e latts
 
 /-- Lambert conformal conic, Snyder (15-1)…(15-10) -/
 def lcc (a e lat0 lat1 lat2 lon0 k0 x0 y0 lon lat : α) : α × α :=
-  let n : α := if gt (abs (lat1 - lat2)) 1.0e-10 then log (m e lat1 / m e lat2) / log (t e lat1 / t e lat2) else sin lat1
+  let n : α := if gt (abs (lat1 - lat2)) 0.0000000001 then log (m e lat1 / m e lat2) / log (t e lat1 / t e lat2) else sin lat1
   let F := m e lat1 / (n * pow (t e lat1) n)
   let rho := a * F * pow (t e lat) n
   let rho0 := a * F * pow (t e lat0) n
@@ -79,7 +79,7 @@ def lcc (a e lat0 lat1 lat2 lon0 k0 x0 y0 lon lat : α) : α × α :=
 def aea (a e lat0 lat1 lat2 lon0 x0 y0 lon lat : α) : α × α :=
   let m1 := m e lat1
   let m2 := m e lat2
-  let n : α := if gt (abs (lat1 - lat2)) 1.0e-10 then (m1 * m1 - m2 * m2) / (q e lat2 - q e lat1) else sin lat1
+  let n : α := if gt (abs (lat1 - lat2)) 0.0000000001 then (m1 * m1 - m2 * m2) / (q e lat2 - q e lat1) else sin lat1
   let C := m1 * m1 + n * q e lat1
   let rho := a * sqrt (C - n * q e lat) / n
   let rho0 := a * sqrt (C - n * q e lat0) / n
@@ -91,7 +91,7 @@ def eqdc (sphere : Bool) (a e lat0 lat1 lat2 lon0 x0 y0 lon lat : α) : α × α
   let es := e * e
   let M (phi : α) : α := if sphere then phi else mDist es phi
   let m1 := m e lat1
-  let n : α := if lt (abs (lat1 - lat2)) 1.0e-10 then sin lat1 else (m1 - m e lat2) / (M lat2 - M lat1)
+  let n : α := if lt (abs (lat1 - lat2)) 0.0000000001 then sin lat1 else (m1 - m e lat2) / (M lat2 - M lat1)
   let G := m1 / n + M lat1
   let rho := a * (G - M lat)
   let rho0 := a * (G - M lat0)
